@@ -692,6 +692,12 @@ pub fn analyse(case: &IterCase, res: &RunResult) -> CaseReport {
                 for k in ["C09/consumer-panic", "C10/consumer-panic", "C11/consumer-panic"] {
                     rep.viol(k, format!("the consumer panicked: {}", msg));
                 }
+                if msg.contains("Full slot with nothing") {
+                    rep.viol("C08/panic=full-slot-empty", format!("recv on an exfiltrator's channel panicked: {}", msg));
+                }
+                if msg.contains("No empty slot") {
+                    rep.viol("C08/panic=no-empty-slot", format!("a channel operation of an exfiltrator panicked: {}", msg));
+                }
             }
         }
     }
